@@ -15,11 +15,11 @@ import (
 const forcedFlag = int32(1) << 30
 
 type Config struct {
-	MaxSteps  int // instruction budget per path
-	MaxFrames int // call-depth budget per path
-	OrderMode bool
+	MaxSteps    int // instruction budget per path
+	MaxFrames   int // call-depth budget per path
+	OrderMode   bool
 	OrderBudget int
-	Trace     bool
+	Trace       bool
 }
 
 type ndRec struct {
@@ -89,48 +89,50 @@ type Machine struct {
 	blocks    map[*ssa.BasicBlock]struct{} // coverage, merged into Shared when the worker ends
 	finfo     map[*ssa.Function]*funcInfo
 
-	prefix    []int32
-	decisions []int32
-	pending   [][]int32
-	pc        []*sym.Term
-	steps     int
-	frames    int
-	allocs    int
-	nd        []ndRec
-	ndCount   int
-	covers    map[string]bool
-	observes  []obsRec
-	asserts   int
-	discharge int
-	unknowns  int
-	forks     int
-	foreign   map[string]int
-	under     bool
-	env       []value // os.Environ stub ("K=V" strings, values possibly symbolic)
-	cand      *Candidate
-	decided   map[int]bool
-	evalMemo  map[int]sym.Val
-	walk      int
-	bufs      map[*value]*[]*sym.Term
+	prefix      []int32
+	decisions   []int32
+	pending     [][]int32
+	pc          []*sym.Term
+	steps       int
+	frames      int
+	allocs      int
+	nd          []ndRec
+	ndCount     int
+	covers      map[string]bool
+	observes    []obsRec
+	asserts     int
+	discharge   int
+	unknowns    int
+	forks       int
+	foreign     map[string]int
+	under       bool
+	env         []value // os.Environ stub ("K=V" strings, values possibly symbolic)
+	cand        *Candidate
+	decided     map[int]bool
+	evalMemo    map[int]sym.Val
+	walk        int
+	bufs        map[*value]*[]*sym.Term
 	orderBudget int
 	orderLight  bool
+	allocElems  int
+	onceDone    map[*value]bool
 	orderGlobal int
-	cyclicSeen bool
-	doms      map[string]*dom
-	tsMemo    map[int]sym.Val
-	entangled map[string]bool
-	walked    map[int]bool
-	pcSent    int
-	solverOpen bool
-	vfs       *vfs
-	harness   string
-	initDone  bool
-	exitCode  *int
-	exitOK    bool
-	lastModel sym.Model
-	strTokens []string
-	fnStack   []*ssa.Function
-	stores    []string // stores to package-level variables after init
+	cyclicSeen  bool
+	doms        map[string]*dom
+	tsMemo      map[int]sym.Val
+	entangled   map[string]bool
+	walked      map[int]bool
+	pcSent      int
+	solverOpen  bool
+	vfs         *vfs
+	harness     string
+	initDone    bool
+	exitCode    *int
+	exitOK      bool
+	lastModel   sym.Model
+	strTokens   []string
+	fnStack     []*ssa.Function
+	stores      []string // stores to package-level variables after init
 }
 
 var defaultTokens = []string{"s0", "s1", "s2", "s3"}
@@ -146,6 +148,8 @@ func (m *Machine) resetPath(prefix []int32) {
 	m.prefix = prefix
 	m.OrderMode = m.cfg.OrderMode
 	m.orderLight = false
+	m.allocElems = 0
+	m.onceDone = nil
 	m.orderGlobal = 0
 	m.orderBudget = m.cfg.OrderBudget
 	m.decisions = m.decisions[:0]
